@@ -267,5 +267,22 @@ CHECKS["C14"] = {
             "ReadOnly(default)/UUID() cannot be unpickled; ReadOnly/Module/dynamic-Range definitions cannot be "
             "pickled)",
 }
+CHECKS["C15"] = {
+    "category": "exploration",
+    "technique": "bounded exhaustive enumeration of grammar derivations and of raw strings against an independent recogniser + denotation",
+    "text": "(i) every derivation of the documented grammar with up to 8 (10 thorough) tokens over names a/b/items, "
+            "+metadata, *, '.', ':', ',', brackets; each must be accepted by parse/compile and the compiled "
+            "ObserverGraphs, flattened to the set of observed paths (node kind, name, notify, optional), must equal "
+            "the denotation computed by an independent recursive-descent recogniser written from the manual's tables "
+            "(notify iff last or followed by '.', 'items' = trait named items / dict / list / set items, all "
+            "optional; '*' only in terminal position incl. inside terminal brackets); parsing twice must give equal "
+            "patterns; four equivalent spellings (spaces, newlines, outer brackets, double brackets) must compile to "
+            "equal patterns and removal by one spelling must exactly undo registration by another (notifier "
+            "fingerprint back to baseline). (ii) every string of up to 5 (6) symbols over a 13-symbol alphabet "
+            "(incl. space, newline, a digit): accepted iff the recogniser accepts, same meaning; otherwise "
+            "ValueError and nothing else.",
+    "note": "three representative names; known finding: '*' inside terminal brackets is rejected contrary to the "
+            "manual",
+}
 
 NOT_CLAIMED = {}
